@@ -79,4 +79,13 @@ TEXT = {
   note='Trusted: Coq kernel; the scripted transport and the election-timeout hook; Go scheduler delivering each released answer to the loop before the next one (1.5 ms apart).',
   technique='Coq proof (invariant over candidate sessions) + differential correspondence of the real candidate loop with scripted peers + monitored real-timer clusters',
  ),
+ 'C13': dict(
+  level='Machine-checked theorems (Coq) over the model of checkLeaderLease and the lease timer arithmetic, for ANY configuration and contact times: the check steps down exactly when fewer than quorumSize voters '
+        '(leader included, non-voters never counted) were heard within the lease; once too few voters answer after t0, every check after t0+lease steps down; checks are between 10 ms and one lease apart, so step-down happens within '
+        't0 + 2 x lease + scheduling latency (a parameter); a leader whose majority keeps answering within the lease is never deposed; ValidateConfig gives lease <= heartbeat <= election. '
+        'Tie: real checkLeaderLease on a stepper leader over a grid of contact ages x 7 configurations, ValidateConfig enumeration, the 10 ms constant, and real-timer clusters measuring the step-down delay and a fault-free run. '
+        'PARTIAL: scheduler latency and that heartbeats arrive within the lease in a fault-free cluster are runtime behaviour (hypotheses of the theorems), measured not proved.',
+  note='Trusted: Coq kernel; wall clock of the sandbox for the real-timer scenarios; the leaderLoop interval formula max(lease-maxDiff, 10ms) is re-stated in the harness (the loop is not callable) and exercised in the real-timer runs.',
+  technique='Coq proof (counting lemma + timed-sequence argument) + differential grid on checkLeaderLease + measured real-timer clusters',
+ ),
 }
